@@ -30,6 +30,7 @@ import (
 	"os"
 	"os/exec"
 	"path/filepath"
+	"regexp"
 	"runtime"
 	"runtime/debug"
 	"sort"
@@ -238,11 +239,14 @@ func loadCorpus() {
 				corpusList = append(corpusList, corpusEntry{e.Name(), d})
 			}
 		}
+		corpusList = append(corpusList, pipeObjStmCorpus()...)
+		corpusList = append(corpusList, pipeXRefCorpus()...)
 		corpusList = append(corpusList, fontCorpus("base1", bases[1])...)
 		corpusList = append(corpusList, objStmCorpus()...)
 		corpusList = append(corpusList, fontCorpus("base0", bases[0])...)
 		corpusList = append(corpusList, dctCorpus("base0", bases[0])...)
 		corpusList = append(corpusList, imageCorpus()...)
+		corpusList = append(corpusList, sinkCorpus()...)
 		for i, d := range bases {
 			vs := objStmVariants(fmt.Sprintf("base%d", i), d)
 			corpusList = append(corpusList, vs...)
@@ -387,7 +391,7 @@ func runWorker(e *common.Env, k, w, from int, outPath string) {
 		b, _ := json.Marshal(l)
 		out.Write(append(b, '\n'))
 	}
-	deadline := time.Now().Add(time.Duration(e.Pick(55, 600)) * time.Second)
+	deadline := time.Now().Add(time.Duration(e.Pick(45, 600)) * time.Second)
 	if s := os.Getenv("VERIF_C05_BUDGET_S"); s != "" {
 		if v, err := strconv.Atoi(s); err == nil {
 			deadline = time.Now().Add(time.Duration(v) * time.Second)
@@ -780,6 +784,10 @@ func main() {
 			if l.Case != "" {
 				sig += ":" + l.Kind
 			}
+			if l.Status == "leak" && xrefPipeLabel.MatchString(l.Label) {
+				// readXRefStream does not close the decoded cross-reference stream (findings/C05.json)
+				sig = "goroutine-leak:xref-stream-behind-pipe"
+			}
 			if confirmed[sig] >= 2 {
 				continue // enough failing inputs of this kind; each costs 3 fresh runs
 			}
@@ -839,6 +847,8 @@ func fatalFrames(tr string) string {
 	}
 	return strings.Join(out, "\n")
 }
+
+var xrefPipeLabel = regexp.MustCompile(`^pipe-xref-|pipe:[a-z+]+:xref`)
 
 func trunc(s string, n int) string {
 	if len(s) > n {
